@@ -6,9 +6,16 @@ Streams (harness/src/mesh.rs, Coq runner Run/Mesh.v):
   C08hist / C08rand                 hook-driven refinement histories (exhaustive short ones / long random ones)
 
 The oracles work on the IMPLEMENTATION's outputs with exact rational arithmetic (fractions.Fraction):
-all mesh vertices are binary64 values, hence rationals; the polygon's plane is the exact Newell normal of
+all mesh vertices are binary64 (f32 build: binary32) values, hence rationals; the polygon's plane is the exact Newell normal of
 the pushed outline; every decision below is an exact sign / comparison, the only tolerances are the ones
 the property text gives (relative 1e-9 on area sums) or margins that keep the oracle inside the quantifier.
+
+The f32 build (`--features float`, streams with f32=True in the thorough tier of C01): the cases carry "f32": true and 32-bit
+patterns; the runner is the same text on the binary32 instance (Run/Mesh.v: Meshf32 on NumF32fast = NumF32, Run/FastNum32Proof.v),
+bit for bit.  The crate's tolerances are absolute and not scaled with `Float` (finding F15): oblique
+outlines are mostly refused, so the f32 generator draws 75% coordinate planes (harness/src/mesh.rs frame_for) and the refusal rate
+is reported in the input distribution (buckets `...:refused` / `:Err` / `:panic`).  C01 speaks about successful triangulations only;
+for those the f32 oracle uses the tolerances of PREC32 below.
 """
 from fractions import Fraction as Fr
 import random, hashlib
@@ -40,8 +47,12 @@ _COMMON = [
     'verification hooks (complete per-slot state: vertices, normal, area, aspect ratio, circumcentre, centroid, neighbours, constraints, validity, index)',
     'the runner executes the model on NumFfast, proved equal to the primitive-float instance NumF (Run/FastNum.v)',
 ]
+_F32 = ('f32 build (C01, thorough tier): the same runner text on the binary32 instance, bit for bit: Meshf32 executes NumF32fast (rounding to binary32 by five primitive '
+        'operations, Run/FastNum32.v), PROVED equal to NumF32 (every operation followed by Flocq\'s rounding at (24,128)) in Run/FastNum32Proof.v; generator restricted to planes in which Loop3D construction succeeds in single precision (F15), refusal rate in the input '
+        'distribution; oracle tolerances for successful f32 triangulations: area sum 1e-4 relative, plane 1e-6 + 2^-18 |coordinate|, reversed triangle = signed area below '
+        '-1e-4 x longest edge^2, coverage margins 1e-4 x size + 2e-4')
 ASSUMPTIONS = {
- 'C01': _COMMON + ['the geometric half (signed areas, winding numbers) is NOT proved here: it is checked per run by the exact-rational oracle on the '
+ 'C01': _COMMON + [_F32, 'the geometric half (signed areas, winding numbers) is NOT proved here: it is checked per run by the exact-rational oracle on the '
                    'implementation outputs (area sum, orientation, coverage of sampled points); only the structural facts are theorems'],
  'C08': _COMMON + ['Conf_struct (neighbour symmetry, validity, counter) is proved preserved only for the operations listed in Properties/C08_mesh.v; the '
                    'geometric clauses (same region, same outline, orientation) are checked per step by the exact-rational oracle; Properties/C08_region.v and C08_links.v prove '
@@ -119,9 +130,13 @@ def streams(prop, tier):
         if q: return [Stream('C01mesh', 156), Stream('C01refine', 40, extra=['120', '40', '2.0'])]
         if tier == 'search': return [Stream('C01mesh', 300), Stream('C01refine', 120, extra=['0', '2000', '3.0'])]
         return [Stream('C01mesh', 1200), Stream('C01mesh', 400, release=True), Stream('C01refine', 160, extra=['500', '300', '3.0']),
-                Stream('C01refine', 120, release=True, extra=['0', '2000', '6.0'])]
+                Stream('C01refine', 120, release=True, extra=['0', '2000', '6.0']),
+                # the f32 build (in C01's quantifier): from_polygon and mesh_polygon on the binary32 instance NumF32fast (= NumF32,
+                # Run/FastNum32Proof.v).  A stream with extra=['--ref32'] would run on the reference instance with Flocq's own rounding
+                # (module Meshf32ref; ~25 s of model time per case, up to 2 min): not needed since the equality is proved
+                Stream('C01mesh', 500, f32=True), Stream('C01refine', 120, f32=True, extra=['300', '100', '2.0'])]
     if prop == 'C08':
-        if q: return [Stream('C08hist', 220, extra=['2']), Stream('C08rand', 16, extra=['90'])]
+        if q: return [Stream('C08hist', 180, extra=['2']), Stream('C08rand', 12, extra=['90'])]
         if tier == 'search': return [Stream('C08hist', 1500, extra=['2']), Stream('C08rand', 100, extra=['150'])]
         return [Stream('C08hist', 1800, extra=['3']), Stream('C08rand', 70, extra=['250']), Stream('C08rand', 40, release=True, extra=['250'])]
     if prop == 'C09':
@@ -139,6 +154,31 @@ def streams(prop, tier):
 # decoding
 # ------------------------------------------------------------------------------------------------
 FM = Fmt(False)
+class Prec:
+    """tolerances of the tiling oracle for the working precision of the build that produced the case"""
+    def __init__(s, f32):
+        s.f32 = f32
+        # triangle areas sum to the polygon's area: the property's relative 1e-9; f32: 1e-4 (a vertex dropped by the crate's absolute
+        # 1e-5 collinearity tolerance -- the rounding of the inputs makes redundant points collinear to 1e-7 x size only -- or a
+        # boundary point placed by the 100-eps on-edge test moves the boundary by up to 1.2e-5 of an edge)
+        s.area_rel = Fr(1, 10 ** 4) if f32 else Fr(1, 10 ** 9)
+        # vertices in the polygon's plane: 1e-6; f32: plus 32 ulp32 of the largest coordinate of the vertex
+        s.plane_abs = Fr(1, 10 ** 6); s.plane_rel = Fr(1, 2 ** 18) if f32 else Fr(0)
+        # a triangle counts as reversed / degenerate when its signed area (x 2 |N|) is <= -orient x |N| x (longest edge)^2: exact sign
+        # for f64; f32: a sliver left by an on-edge insertion 1.2e-5 of an edge off the edge is rounding, not a reversed triangle
+        s.orient = Fr(1, 10 ** 4) if f32 else Fr(0)
+        # coverage: samples closer than this (x size) to an outline edge or to a triangle edge are not generic; f32 adds 2e-4 (absolute):
+        # the width of the sliver left by a vertex dropped under the absolute 1e-5 tolerance on an edge of 0.05
+        s.margin_rel = Fr(1, 10 ** 4) if f32 else Fr(1, 10 ** 9); s.margin_abs = Fr(2, 10 ** 4) if f32 else Fr(0)
+        # offsets of the samples placed around vertices (x size)
+        s.d1 = Fr(1, 100) if f32 else Fr(1, 1000); s.d2 = Fr(1, 1000) if f32 else Fr(1, 10 ** 6)
+PREC64, PREC32 = Prec(False), Prec(True)
+def is_f32(c, st=None):
+    """cases of the f32 build carry "f32": true (harness/src/mesh.rs); the stream flag says the same"""
+    return bool(c.get('f32') or (st is not None and getattr(st, 'f32', False)))
+def set_format(c, st=None):
+    FM.f32 = is_f32(c, st)
+    return PREC32 if FM.f32 else PREC64
 def fl(b): return FM.fl(b)
 def fls(bits): return [fl(b) for b in bits]
 def pts(bits):
@@ -163,6 +203,7 @@ class Geo:
         # twice the net area times |N| (rational): dot(newell(outer), N) - sum |dot(newell(hole), N)|
         self.net = dot(self.N, self.N) - sum(abs(dot(newell(h), self.N)) for h in self.holes)
         self.fsegs = None
+        self.margin = self.scale * Fr(1, 10 ** 9)       # samples closer than this to the outline are not judged (set_margin)
         self.segs = []      # outline segments (3-D), outer then holes
         for loop in [self.outer] + self.holes:
             n = len(loop)
@@ -170,13 +211,13 @@ class Geo:
     def p2(self, p): return project(p, self.ax)
     def inside(self, q):
         """+1 strictly inside the region, 0 outside / in a hole, None when within the margin of an outline edge"""
-        m = (self.scale * Fr(1, 10 ** 9)) ** 2
+        m = self.margin ** 2
         if self.fsegs is None:
             self.fsegs = []
             for loop in [self.o2] + self.h2:
                 n = len(loop)
                 for i in range(n): self.fsegs.append((float(loop[i][0]), float(loop[i][1]), float(loop[(i + 1) % n][0]), float(loop[(i + 1) % n][1]), loop[i], loop[(i + 1) % n]))
-        qx, qy = float(q[0]), float(q[1]); thr = (float(self.scale) * 1e-7) ** 2
+        qx, qy = float(q[0]), float(q[1]); thr = (float(self.margin) * 100) ** 2
         for (ax, ay, bx, by, a, b) in self.fsegs:
             # float pre-filter (100 x the margin); the exact distance only for the near edges
             dx, dy = bx - ax, by - ay; l2 = dx * dx + dy * dy
@@ -253,17 +294,21 @@ def well_conditioned(g):
 # ------------------------------------------------------------------------------------------------
 # C01: tiling
 # ------------------------------------------------------------------------------------------------
-def tiling_oracle(prop, g, tris, seed_bits, suffix='', nrand=60):
-    """tris: list of (a,b,c) exact 3-D points; suffix: ':refined' for mesh_polygon results"""
+def tiling_oracle(prop, g, tris, seed_bits, suffix='', nrand=60, prec=PREC64):
+    """tris: list of (a,b,c) exact 3-D points; suffix: ':refined' for mesh_polygon results; prec: the tolerances (PREC64 / PREC32)"""
     if not tris: return ('%s:area-sum%s' % (prop, suffix), 'no triangle returned')
-    tol_plane2 = Fr(1, 10 ** 12)      # (1e-6)^2
     N = g.N; nn = dot(N, N); o = g.outer[0]
+    g.margin = g.scale * prec.margin_rel + prec.margin_abs
     tot = Fr(0)
     for k, (a, b, cc) in enumerate(tris):
         for p in (a, b, cc):
             h = dot(sub(p, o), N)
-            if h * h > tol_plane2 * nn: return ('%s:off-plane%s' % (prop, suffix), 'vertex of triangle %d is %.3g off the polygon plane' % (k, float(abs(h)) / float(nn) ** 0.5))
+            tp = prec.plane_abs + prec.plane_rel * max(abs(x) for x in p)
+            if h * h > tp * tp * nn: return ('%s:off-plane%s' % (prop, suffix), 'vertex of triangle %d is %.3g off the polygon plane' % (k, float(abs(h)) / float(nn) ** 0.5))
         s = dot(cross(sub(b, a), sub(cc, a)), N)
+        if prec.orient and s <= 0:
+            lmax = max(len2(sub(b, a)), len2(sub(cc, b)), len2(sub(a, cc)))
+            if s * s <= prec.orient ** 2 * nn * lmax * lmax: tot += s; continue       # f32: a sliver within the rounding allowance
         if s <= 0:
             # why was this "ear" (v0,v1,v2) = (a,b,c) clipped?  its chord is v0-v2: if the chord's midpoint is outside the
             # region, Loop3D::test_point gave a false positive (C05/F7); if it is inside, the chord is a genuine interior
@@ -274,7 +319,7 @@ def tiling_oracle(prop, g, tris, seed_bits, suffix='', nrand=60):
             return ('%s:orientation:%s:%s%s' % (prop, 'holes' if g.holes else 'simple', why, suffix),
                     'triangle %d is %s w.r.t. the polygon normal (%s)' % (k, 'degenerate' if s == 0 else 'reversed', why))
         tot += s
-    if abs(tot - g.net) > Fr(1, 10 ** 9) * g.net:
+    if abs(tot - g.net) > prec.area_rel * g.net:
         fn = float(nn) ** 0.5
         deficit = abs(float(tot - g.net)) / 2 / fn
         # Loop3D::push / close / sanitize drop a vertex whose corner spans |cross| < 1e-5 (area < 5e-6): a bounded, documented tolerance
@@ -285,7 +330,7 @@ def tiling_oracle(prop, g, tris, seed_bits, suffix='', nrand=60):
     fb = [(float(min(p[0] for p in t)), float(min(p[1] for p in t)), float(max(p[0] for p in t)), float(max(p[1] for p in t))) for t in t2]
     rnd = random.Random(int(hashlib.sha256(str(seed_bits).encode()).hexdigest()[:12], 16))
     Q = []
-    d1 = g.scale * Fr(1, 1000); d2 = g.scale * Fr(1, 10 ** 6)
+    d1 = g.scale * prec.d1; d2 = g.scale * prec.d2
     vs = list(g.o2) + [p for h in g.h2 for p in h]
     mv = list({p for t in t2 for p in t})
     rnd.shuffle(mv)
@@ -301,7 +346,7 @@ def tiling_oracle(prop, g, tris, seed_bits, suffix='', nrand=60):
         Q.append((x0 + (x1 - x0) * Fr(rnd.randrange(1, 10 ** 6), 10 ** 6), y0 + (y1 - y0) * Fr(rnd.randrange(1, 10 ** 6), 10 ** 6)))
     if len(tris) > 1500: Q = Q[::3]
     # a sample closer than 1e-9 * size to a triangle edge is not generic (T-junctions left by sanitize are 1e-16 wide)
-    m2 = (g.scale * Fr(1, 10 ** 9)) ** 2; pad = float(g.scale) * 1e-8
+    m2 = g.margin ** 2; pad = float(g.margin) * 10
     for q in Q:
         ins = g.inside(q)
         if ins is None: continue
@@ -328,7 +373,7 @@ def oracle_C01(c):
     if g.net <= 0: return None
     if c['kind'] == 'rf' and any(v == 0 for v in c['valid']):
         return ('C01:invalid-returned:refined', 'get_trilist returns %d discarded triangle(s)' % sum(1 for v in c['valid'] if v == 0))
-    return tiling_oracle('C01', g, trilist(c), c['outer'], ':refined' if c['kind'] == 'rf' else '')
+    return tiling_oracle('C01', g, trilist(c), c['outer'], ':refined' if c['kind'] == 'rf' else '', prec=PREC32 if is_f32(c) else PREC64)
 
 # ------------------------------------------------------------------------------------------------
 # C18
@@ -528,6 +573,7 @@ def oracle_C08(c):
 # part interface
 # ------------------------------------------------------------------------------------------------
 def oracle(prop, c, st):
+    set_format(c, st)
     if prop == 'C01': return oracle_C01(c)
     if prop == 'C08': return oracle_C08(c)
     if prop == 'C09': return oracle_C09(c)
@@ -535,7 +581,11 @@ def oracle(prop, c, st):
     return None
 
 def classify(prop, c, st):
+    set_format(c, st)
     fam = c['note'].split(':')[0]
+    if is_f32(c):
+        # f32 streams: the plane kind and whether the polygon could be built at all are part of the bucket (refusal rate, F15)
+        fam = 'f32:' + c['note'].split(':')[-1].split(' ')[0] + ':' + fam + (':refused' if c.get('build') else '')
     if c['kind'] == 'hi':
         key = (tuple(c['outer']), tuple((s['k'], s['i'], s['e'], tuple(s['fl'])) for s in c['steps']))
         return key, len(c['steps']) < 2, fam
@@ -548,6 +598,7 @@ def classify(prop, c, st):
     return key, triv, bucket
 
 def describe(prop, c, st):
+    set_format(c, st)
     d = dict(kind=c['kind'], note=c['note'], build=c['build'], outcome=c['o'], nvertices=len(c['outer']) // 3, holes=[len(h) // 3 for h in c['holes']])
     if c['kind'] == 'hi':
         d['steps'] = [[OPNAME[s['k']], s['i'], s['e'], s['lab'], s['o']] for s in c['steps']][:12]
